@@ -63,7 +63,7 @@ def ctor_check(case):
 
 def _sim_strategy(tier):
     big = tier == "thorough"
-    return sim_cases(illegal=True, builtin=True, steps=(1, 20) if big else (1, 8), agents_per_group=(1, 4), n_markets=(1, 3))
+    return sim_cases(illegal=True, builtin=True, steps=(1, 20) if big else (1, 8), agents_per_group=(1, 4), n_markets=(1, 3), mistake=True)
 
 
 def sim_check(case):
@@ -104,8 +104,30 @@ def sim_check(case):
     return CaseInfo(nontrivial=nt, classes=classes, steps=st_["orders"], sample={"case": summarize(case), "stats": st_})
 
 
+@st.composite
+def _rewrite_resubmit_cases(draw, tier):
+    """an order object that was accepted is handed in again at exactly the step (and as the first order on the market) at which an
+    event rewrites pending orders -- the order-mistake shock, or a user hook: 'accepted at most once' holds whatever the rewrite does"""
+    j = draw(st.integers(1, 5))
+    is_buy = draw(st.booleans())
+    first = ["L", 0, is_buy, draw(st.sampled_from([-3, -1, 2])), draw(st.integers(1, 5)), draw(st.sampled_from([None, 9]))]
+    prog = [[first]] + [[] for _ in range(j - 1)] + [[["RS", 0]]] + [[]]
+    cfg = {"simulation": {"markets": ["M0"], "agents": ["A0"],
+                          "sessions": [{"sessionName": 0, "iterationSteps": j + 2, "withOrderPlacement": True, "withOrderExecution": draw(st.booleans()),
+                                        "withPrint": False, "maxNormalOrders": 1, "events": ["RW"]}]},
+           "M0": {"class": "Market", "tickSize": 1.0, "marketPrice": 100.0},
+           "A0": {"class": "VScriptedAgent", "numAgents": 1, "markets": ["M0"], "assetVolume": 10, "cashAmount": 1000, "scripts": [prog]}}
+    if draw(st.booleans()):
+        cfg["RW"] = {"class": "OrderMistakeShock", "target": "M0", "triggerTime": j, "priceChangeRate": draw(st.sampled_from([0.05, -0.05])),
+                     "orderVolume": draw(st.integers(1, 9)), "orderTimeLength": draw(st.integers(1, 6))}
+    else:
+        cfg["RW"] = {"class": "VProbeEvent", "hooks": [["order", True, None, None, None]], "rewrite": {"price_mult": 1.01, "volume_add": 1}}
+    return {"config": cfg, "seed": draw(st.integers(0, 2**31 - 1))}
+
+
 PARTS = {
     "sim": {"check": sim_check, "strategy": _sim_strategy, "budget": {"quick": 3000, "thorough": 40000}},
+    "rewrite_resubmit": {"check": sim_check, "strategy": _rewrite_resubmit_cases, "budget": {"quick": 300, "thorough": 3000}},
     "machine": {"check": make_check({"C04"}, _nt), "strategy": _strategy, "budget": {"quick": 3000, "thorough": 60000}},
     "ctor": {"check": ctor_check, "strategy": lambda tier: ctor_cases, "budget": {"quick": 2000, "thorough": 20000}},
 }
